@@ -80,7 +80,7 @@ func ruleC12ErrorsSurface(c *Ctx) {
 // `bytes` / Inner() of an alias of the secret object).
 func ruleC12FailedCreationCleans(c *Ctx) {
 	u := c.U1
-	c.rule("C12.failed-creation-cleans", "protectedmemory: from a successful Alloc (and from a successfully created secret) every path to an error return passes Free of those pages (Clean, or Unlock+Free); Free of locked pages is preceded by Unlock; memcall.Clean calls Unlock and Free on every path; memguard: a failed Protect in newFromBuffer passes Clean", 7)
+	c.rule("C12.failed-creation-cleans", "protectedmemory: from a successful Alloc (and from a successfully created secret) every path to an error return passes Free of those pages (Clean, or Unlock+Free); Free of locked pages is preceded by Unlock; memcall.Clean calls Unlock and Free on every path; memguard: a failed Protect in newFromBuffer passes Clean", 5)
 	isFreeOf := func(i ssa.Instruction, match func(ssa.Value) bool) bool {
 		if _, isGo := i.(*ssa.Go); isGo {
 			return false
@@ -386,7 +386,7 @@ func ruleC12FailedAccessNeutral(c *Ctx) {
 
 func ruleC12CloseRetryableBalanced(c *Ctx) {
 	u := c.U1
-	c.rule("C12.close-retryable-and-balanced", "close(): closed=true and InUseCounter.Dec only where Protect, Unlock and Free all succeeded; Close does not return early because closing is already set; InUseCounter.Inc exactly once before every success return of creation and never before an error return", 7)
+	c.rule("C12.close-retryable-and-balanced", "close(): closed=true and InUseCounter.Dec only where Protect, Unlock and Free all succeeded; Close does not return early because closing is already set; InUseCounter.Inc exactly once before every success return of creation and never before an error return", 6)
 	isInUse := func(i ssa.Instruction, meth string) bool {
 		cc := callOf(i)
 		if cc == nil || !cc.IsInvoke() || cc.Method.Name() != meth {
